@@ -16,6 +16,7 @@ import (
 	"runtime/pprof"
 	"strconv"
 	"strings"
+	"time"
 
 	"verif/sim/core"
 	"verif/sim/runner"
@@ -218,12 +219,28 @@ func replay(exe, path string, quiet, child bool) int {
 		if mb := eng.Info().MemLimitMB; mb > 0 {
 			cmd = exec.Command("/bin/sh", "-c", fmt.Sprintf("ulimit -v %d; exec '%s' replay -quiet -child '%s'", mb*1024, exe, path))
 		}
-		out, err := cmd.CombinedOutput()
+		// a recorded hang is reproduced by not finishing within the timeout
+		var buf strings.Builder
+		cmd.Stdout, cmd.Stderr = &buf, &buf
+		if err := cmd.Start(); err != nil {
+			fmt.Fprintln(os.Stderr, err)
+			return 2
+		}
+		done := make(chan error, 1)
+		go func() { done <- cmd.Wait() }()
+		var err error
+		select {
+		case err = <-done:
+		case <-time.After(60 * time.Second):
+			cmd.Process.Kill()
+			<-done
+			err = fmt.Errorf("no result within 60 s (hang)")
+		}
 		if err != nil {
 			if !quiet {
-				os.Stdout.Write(out)
+				os.Stdout.WriteString(buf.String())
 			}
-			fmt.Printf("replay: child process died as recorded (%v): %s\n", err, want)
+			fmt.Printf("replay: child process died or hung as recorded (%v): %s\n", err, want)
 			fmt.Printf("VIOLATION property=%s replay=%s\n", rf.Property, path)
 			return 1
 		}
